@@ -890,12 +890,32 @@ func init() {
 				}
 				return false
 			}
+			// derived from the loaded template: the template itself or a field read out of it (tpl.vue, tpl.filename)
+			fromLoadDeep := func(v ssa.Value) bool {
+				if fromLoad(v) {
+					return true
+				}
+				for _, o := range p.origins(v, OriginOpts{}) {
+					if ld, ok := o.(*ssa.UnOp); ok && ld.Op == token.MUL {
+						if fa, ok := ld.X.(*ssa.FieldAddr); ok && fromLoad(fa.X) {
+							return true
+						}
+					}
+				}
+				return false
+			}
 			via := map[ssa.Instruction]bool{}
 			var how []string
 			for _, site := range callsIn(fn) {
 				cc := site.Common()
 				args := callArgs(cc)
-				if len(args) == 0 || !fromLoad(args[0]) {
+				derived := false
+				for _, a := range args {
+					if fromLoadDeep(a) {
+						derived = true
+					}
+				}
+				if len(args) == 0 || !derived {
 					continue
 				}
 				// (a) the recorded error is consulted and a failure returns
@@ -906,17 +926,20 @@ func init() {
 					}
 					continue
 				}
-				// (b) the link is rendered by something that reads the file again
+				// (b) the link is rendered by something that reads the template's own file again: the file name
+				// kept in the template reaches the loader's path argument through this call
 				reads := false
 				for _, callee := range p.Callees(site) {
 					if !inModule(callee) || !p.Cone(callee)[loader] {
 						continue
 					}
-					// ... the template's own file: its filename field reaches the loader's path argument
 					cone := p.Cone(callee)
 					t := newTaint(p)
-					t.Scope = func(f *ssa.Function) bool { return cone[f] }
+					t.Scope = func(f *ssa.Function) bool { return cone[f] || f == fn }
 					t.FollowField = func(*types.Var) bool { return false }
+					t.StopCall = func(cs ssa.CallInstruction, arg ssa.Value) bool {
+						return cs.Parent() == fn && cs != site // only what goes through this very call counts for it
+					}
 					t.Sink = func(u ssa.Instruction, v ssa.Value) string {
 						if cs, ok := u.(ssa.CallInstruction); ok {
 							for _, cl := range p.Callees(cs) {
@@ -927,14 +950,25 @@ func init() {
 						}
 						return ""
 					}
-					for f := range cone {
+					seed := func(f *ssa.Function, own bool) {
 						eachInstr(f, func(in ssa.Instruction) {
 							if ld, ok := in.(*ssa.UnOp); ok && ld.Op == token.MUL {
 								if fv := loadedField(ld); fv != nil && fieldIs(fv, "filename") && isString(ld.Type()) {
+									if own {
+										if fa, ok := ld.X.(*ssa.FieldAddr); !ok || !fromLoad(fa.X) {
+											return
+										}
+									}
 									t.Seed(ld, "the template's file name")
 								}
 							}
 						})
+					}
+					seed(fn, true)
+					for f := range cone {
+						if f != fn {
+							seed(f, false)
+						}
 					}
 					t.Run()
 					if len(t.Hits) > 0 {
@@ -1119,6 +1153,41 @@ func impliesTrue(cond ssa.Value, want bool, leaf ssa.Value) bool {
 	}
 	// leaf must be true if, with leaf false, cond is known to be !want
 	r, k := ev(cond, false)
+	return k && r != want
+}
+
+// impliesFalse: when cond evaluates to want, must leaf be false?
+func impliesFalse(cond ssa.Value, want bool, leaf ssa.Value) bool {
+	var ev func(v ssa.Value) (bool, bool)
+	ev = func(v ssa.Value) (val, known bool) {
+		if v == leaf {
+			return true, true
+		}
+		switch x := v.(type) {
+		case *ssa.UnOp:
+			if x.Op == token.NOT {
+				r, k := ev(x.X)
+				return !r, k
+			}
+		case *ssa.Phi:
+			res, have := false, false
+			for _, e := range x.Edges {
+				r, k := ev(e)
+				if !k || (have && r != res) {
+					return false, false
+				}
+				res, have = r, true
+			}
+			return res, have
+		case *ssa.Const:
+			if x.Value != nil && x.Value.Kind() == constant.Bool {
+				return constant.BoolVal(x.Value), true
+			}
+		}
+		return false, false
+	}
+	// leaf must be false if, with leaf true, cond is known to be !want
+	r, k := ev(cond)
 	return k && r != want
 }
 
@@ -1363,7 +1432,7 @@ func init() {
 					}
 					type state struct {
 						b         *ssa.BasicBlock
-						notFound  bool
+						found     int8 // what the path knows about the lookup's `found` flag: 0 nothing, 1 true, 2 false
 						satisfied bool
 					}
 					seen := map[state]bool{}
@@ -1381,14 +1450,14 @@ func init() {
 						}
 						last := s.b.Instrs[len(s.b.Instrs)-1]
 						if _, isRet := last.(*ssa.Return); isRet {
-							if s.notFound && !s.satisfied {
+							if s.found == 2 && !s.satisfied {
 								bad = s.b
 							}
 							return
 						}
 						ifi, isIf := last.(*ssa.If)
 						for k, succ := range s.b.Succs {
-							nx := state{succ, s.notFound, s.satisfied}
+							nx := state{succ, s.found, s.satisfied}
 							if isIf && s.b.Succs[0] != s.b.Succs[1] {
 								cnd, flip := stripNot(ifi.Cond)
 								want := (k == 0) != flip
@@ -1402,13 +1471,27 @@ func init() {
 										usesOK = true
 									}
 								}
-								if usesOK && !impliesTrue(cnd, want, okVal) {
-									nx.notFound = true
+								if usesOK {
+									implied := int8(0)
+									switch {
+									case impliesTrue(cnd, want, okVal):
+										implied = 1
+									case impliesFalse(cnd, want, okVal):
+										implied = 2
+									}
+									switch {
+									case implied != 0 && s.found != 0 && implied != s.found:
+										continue // contradicts what an earlier edge of this path established
+									case implied != 0:
+										nx.found = implied
+									case s.found == 0:
+										nx.found = 2 // undetermined: assume the worse
+									}
 								}
 							}
 							if succ.Dominates(s.b) && succ == start {
 								// the end of this round
-								if nx.notFound && !nx.satisfied {
+								if nx.found == 2 && !nx.satisfied {
 									bad = s.b
 								}
 								continue
@@ -1419,7 +1502,7 @@ func init() {
 							walk(nx)
 						}
 					}
-					walk(state{start, false, false})
+					walk(state{start, 0, false})
 					where := ""
 					if bad != nil && len(bad.Instrs) > 0 {
 						where = p.instrPos(bad.Instrs[len(bad.Instrs)-1])
@@ -1819,6 +1902,44 @@ func init() {
 						}
 						n++
 						c.check(folded(args[0], 0), fmt.Sprintf("%s: %s(…, %q)#%d ignores letter case", shortName(fn), name, s, n), p.instrPos(site), "applied to a case-folded copy", "the source is compared with "+fmt.Sprintf("%q", s)+" case-sensitively: a document written with the keyword in another case (`<!doctype html>`, `<HTML>`) is not recognised as a full document and loses its doctype / html / head / body on the fragment path")
+					default:
+						// a predicate of the module that is handed the keyword: it must compare case-insensitively
+						callee := site.Common().StaticCallee()
+						if callee == nil || !inModule(callee) || len(callee.Blocks) == 0 {
+							continue
+						}
+						for ai, a := range args {
+							if cv, ok := a.(*ssa.Convert); ok {
+								a = cv.X
+							}
+							s, ok := constString(a)
+							if !ok || !keyword(s) || ai >= len(callee.Params) {
+								continue
+							}
+							prm := callee.Params[ai]
+							foldedUse, plainUse := false, ""
+							for _, cs := range callsIn(callee) {
+								uses := false
+								for _, ca := range cs.Common().Args {
+									for _, o := range p.origins(ca, OriginOpts{}) {
+										if o == ssa.Value(prm) {
+											uses = true
+										}
+									}
+								}
+								if !uses {
+									continue
+								}
+								switch cn := calleeName(cs.Common()); cn {
+								case "strings.EqualFold", "bytes.EqualFold", "strings.ToLower", "strings.ToUpper", "bytes.ToLower", "bytes.ToUpper":
+									foldedUse = true
+								case "strings.HasPrefix", "strings.Contains", "strings.Index", "bytes.HasPrefix", "bytes.Contains", "bytes.Index", "strings.HasSuffix", "bytes.HasSuffix", "bytes.Equal":
+									plainUse = cn
+								}
+							}
+							n++
+							c.check(foldedUse && plainUse == "", fmt.Sprintf("%s: %s(…, %q)#%d ignores letter case", shortName(fn), name, s, n), p.instrPos(site), "the predicate compares with EqualFold / on a case-folded copy", "the source is compared with "+fmt.Sprintf("%q", s)+" case-sensitively (by "+plainUse+" inside "+name+"): a document written with the keyword in another case is not recognised as a full document")
+						}
 					case "strings.EqualFold", "bytes.EqualFold":
 						for _, a := range args {
 							if cv, ok := a.(*ssa.Convert); ok {
@@ -1954,6 +2075,127 @@ func init() {
 			}
 			if n == 0 {
 				undecided("escapeText writes nothing with WriteString")
+			}
+		},
+	})
+}
+
+func init() {
+	register(&Rule{
+		ID: "C20.R9", Props: []string{"C20", "C10"}, Min: 2,
+		Doc: "every Markdown document is parsed on its own: the calls of the goldmark parser (Parser.Parse) made by the renderer are handed no option that holds a value kept in the long-lived Markdown object or in a package-level variable — a parser.Context carries the link reference definitions of the document, and one that is shared makes the definitions of an earlier document visible in every later one (`[faq]` becomes a link, `[1]:` resolves to the first document's target)",
+		Run: func(p *Prog, c *Ctx) {
+			n := 0
+			for _, fn := range p.Funcs {
+				if p.Dropped[fn] {
+					continue
+				}
+				if pk := funcPkg(fn); pk == nil || pk.Path() != markdownPkg {
+					continue
+				}
+				for _, site := range callsIn(fn) {
+					cc := site.Common()
+					if !(cc.IsInvoke() && cc.Method.Name() == "Parse" && strings.Contains(typeShort(cc.Value.Type()), "parser.Parser")) {
+						continue
+					}
+					n++
+					bad := ""
+					args := cc.Args
+					if len(args) >= 2 {
+						// the options slice: every element stored into its backing array
+						var elems []ssa.Value
+						for _, o := range p.origins(args[len(args)-1], OriginOpts{}) {
+							if al0, ok := o.(*ssa.Alloc); ok {
+								o = &ssa.Slice{X: al0}
+							}
+							if sl, ok := o.(*ssa.Slice); ok {
+								if al, ok := sl.X.(*ssa.Alloc); ok && al.Referrers() != nil {
+									for _, r := range *al.Referrers() {
+										if ia, ok := r.(*ssa.IndexAddr); ok && ia.Referrers() != nil {
+											for _, u := range *ia.Referrers() {
+												if st, ok := u.(*ssa.Store); ok {
+													elems = append(elems, st.Val)
+												}
+											}
+										}
+									}
+								}
+							} else if _, isConst := o.(*ssa.Const); !isConst {
+								elems = append(elems, o)
+							}
+						}
+						if os.Getenv("VC_DEBUG") != "" {
+							for _, e := range elems {
+								fmt.Fprintf(os.Stderr, "DEBUG C20.R9 elem %s\n", e.String())
+								for _, o := range p.origins(e, OriginOpts{}) {
+									fmt.Fprintf(os.Stderr, "DEBUG   origin %s\n", o.String())
+								}
+							}
+						}
+						for _, e := range elems {
+							seen := map[ssa.Value]bool{}
+							var walk func(v ssa.Value, d int)
+							walk = func(v ssa.Value, d int) {
+								if v == nil || seen[v] || d > 6 || bad != "" {
+									return
+								}
+								seen[v] = true
+								for _, o := range p.origins(v, OriginOpts{}) {
+									if f := loadedField(o); f != nil {
+										bad = "field " + f.Name()
+										return
+									}
+									if ld, ok := o.(*ssa.UnOp); ok && ld.Op == token.MUL {
+										if g, ok := ld.X.(*ssa.Global); ok {
+											bad = "package-level " + g.Name()
+											return
+										}
+									}
+									if cl, ok := o.(*ssa.Call); ok {
+										for _, a := range cl.Call.Args {
+											walk(a, d+1)
+										}
+									}
+								}
+							}
+							walk(e, 0)
+						}
+					}
+					c.check(bad == "", fmt.Sprintf("%s: Parser.Parse#%d starts from a clean state", shortName(fn), n), p.instrPos(site), "no parse option holds long-lived state", "the parser is handed an option built from "+bad+": parse state (link reference definitions) survives from one document to the next, so what a document renders to depends on the documents rendered before it")
+				}
+			}
+		},
+	})
+
+	register(&Rule{
+		ID: "C02.R8", Props: []string{"C02", "C01"}, Min: 3,
+		Doc: "interpolation delimiters are found from the left: every search for the constant `{{` or `}}` in the module uses a first-occurrence function (Index, Contains, Count, Cut, HasPrefix, Split…) — an expression ends at the first `}}` after its `{{`; a last-occurrence search (LastIndex…) takes the static text between two closers for part of the expression (`{{ id }}}` loses the value and the brace)",
+		Run: func(p *Prog, c *Ctx) {
+			n := 0
+			for _, fn := range p.Funcs {
+				if p.Dropped[fn] {
+					continue
+				}
+				for _, site := range callsIn(fn) {
+					name := calleeName(site.Common())
+					if !strings.HasPrefix(name, "strings.") && !strings.HasPrefix(name, "bytes.") {
+						continue
+					}
+					isDelim := false
+					for _, a := range site.Common().Args {
+						if cv, ok := a.(*ssa.Convert); ok {
+							a = cv.X
+						}
+						if s, ok := constString(a); ok && (s == "{{" || s == "}}") {
+							isDelim = true
+						}
+					}
+					if !isDelim {
+						continue
+					}
+					n++
+					c.check(!strings.Contains(name, "Last"), fmt.Sprintf("%s: %s of a delimiter#%d", shortName(fn), name, n), p.instrPos(site), "first-occurrence search", "the delimiter is searched from the right ("+name+"): with two closers in reach the later one is taken, so `{{ id }}}` evaluates `id }` and drops both the value and the brace")
+				}
 			}
 		},
 	})
